@@ -557,9 +557,16 @@ def run(rep, ctx):
     cu = one("mp::pre::ValueNode::CleanUpAndRealloc")
     rs = calls(cu, name="resize")
     cl = calls(cu, name="clear")
-    t2.check(len(rs) == 2 and len(cl) == 2 and all(render(call_args(r)[0]) == "Size()" for r in rs) and all(cu.cfg.dominates(c, r) for c in cl for r in rs
-                                                                                                          if render(call_object(c)) == render(call_object(r))),
-             "cleanup", short_loc(cu.loc), "CleanUpAndRealloc clears and re-sizes both numeric vectors to Size()")
+    okcu = len(rs) == 2 and len(cl) == 2 and all(render(call_args(r)[0]) == "Size()" for r in rs) and \
+        all(cu.cfg.dominates(c, r) for c in cl for r in rs if render(call_object(c)) == render(call_object(r)))
+    if not okcu:
+        # the same effect in one call: v.assign(Size(), 0) for both numeric vectors, unconditionally
+        asg_ = calls(cu, name="assign")
+        objs_ = sorted(render(call_object(a_)).replace("this->", "") for a_ in asg_)
+        okcu = objs_ == ["vd_", "vi_"] and not rs and not cl and all(
+            len(call_args(a_)) == 2 and xrender(cu, call_args(a_)[0], True).replace("this->", "").replace(" ", "") == "Size()" and cv(call_args(a_)[1]) == 0 and
+            not cu.cfg.facts_at(a_) for a_ in asg_)
+    t2.check(okcu, "cleanup", short_loc(cu.loc), "CleanUpAndRealloc clears and re-sizes both numeric vectors to Size()")
     cvn = one(VP + "::CleanUpValueNodes")
     t2.check(len(calls(cvn, name="CleanUpAndRealloc")) == 1 and any(n["k"] == "CXXForRangeStmt" for n in cvn.walk()), "cleanup-all-nodes", short_loc(cvn.loc),
              "CleanUpValueNodes visits every registered node")
